@@ -183,8 +183,14 @@ def gen_seq(r, tier):
     elif shape == "same":
         ns = [ns[0]] * ncalls
     parts, calls = [], []
+    # the ordinary filter loop: the same particle count AND the same layout at every call (a per-object cache keyed on
+    # count / layout is then never invalidated)
+    fixed_layout = layout(r) if (shape == "same" and r.random() < 0.75) else None
+    if fixed_layout is not None and kind % 100 in PRIOR_KINDS:
+        ns = [max(ns[0], r.choice([4, 8, 10]))] * ncalls
+        ratio = r.choice([0.25, 0.3, 0.5, 0.75])
     for n in ns:
-        lin, circ, quat = layout(r)
+        lin, circ, quat = fixed_layout if fixed_layout is not None else layout(r)
         style = r.choice(["uniform", "zeros-tail", "zeros", "onehot", "random", "dominated", "heavy-first"])
         if style == "zeros-tail" and n > 1:
             z = r.randint(1, n - 1)
